@@ -51,7 +51,7 @@ from ..engine.report import AnalysisError, Run
 from ..engine.resolver import ClassInfo, FuncInfo, Program
 from ..engine.util import method_call, nodes_with_call, normal_edge, u
 from ._c11_util import (ALGO, BUCKETS_ATTR, FLAG_ATTR, GROUP_KEY, MATRYOSHKA, REQ_SENDER_ATTR, STORE_ATTR, SUBS_ATTRS,
-                        ActorInterp, Flag, ResolverInterp, Sym, arm_group_uses, canonical_source, construction_sites, dataclass_fields,
+                        ActorInterp, Flag, ResolverInterp, Sym, arm_group_uses, canonical_source, channel_key_findings, construction_sites, dataclass_fields,
                         foreign_attr_ref, group_message_classes, is_empty_mapping, is_shift, lin_of, mapping_uses,
                         message_args, opaque_for, reachable_methods, resolve_roles, self_attr_ref,
                         structural_controls, table_choices)
@@ -683,6 +683,7 @@ def check_req(run: Run, prog: Program, roles: Roles) -> None:
     check_reports(run, prog, cls, roles)
     check_run(run, prog, cls, roles)
     check_arm_groups(run, prog, cls, roles)
+    check_channel_key(run, prog, cls, roles)
     check_group_naming(run, prog, cls, roles)
 
 
@@ -754,6 +755,49 @@ def check_arm_groups(run: Run, prog: Program, cls: ClassInfo, roles: Roles) -> N
         run.check(bad is None, "C11.ARM", fi.qual, call, msg, node=call, file=fi.file, path=path,
                   instance=f"{fi.qual}: group of {use['callee']}({use['param']}=...) at line "
                            f"{getattr(call, 'lineno', '?')} is bound on the current pass")
+
+
+def check_channel_key(run: Run, prog: Program, cls: ClassInfo, roles: Roles) -> None:
+    """C11.CHAN - subscriptions the event loop files apart get different report channels.  The sender stored for a
+    subscription is obtained from the channel registry under a key (the name the subscription's channel-name method
+    returns).  Which fields of the subscription decide WHERE the sender is stored is read from the filing code: the
+    field tested to choose the table (operating-point vs regular) and the fields used as keys of the table and of
+    the per-group map.  Each of them must appear whole in the key - otherwise two subscriptions filed apart share one
+    channel, both subscribers receive the reports of both entries and the last report each of them saw is the one
+    sent last: an operating-point actor is then told the regular group's target, and the request is no longer
+    reported regular + reported operating-point target."""
+    found = channel_key_findings(prog, cls, roles)
+    if not found:
+        raise AnalysisError(f"{roles['run'].qual}: no look-up of a report channel in the channel registry was found "
+                            "where subscriptions are filed")
+    for f in found:
+        fi, call, routing, named = f["fn"], f["call"], f["routing"], f["named"]
+        run.analysed(fi.qual)
+        if not routing:
+            raise AnalysisError(f"{fi.qual}: line {call.lineno}: the fields of the subscription that decide where its "
+                                "sender is stored were not found")
+        site_fi, site = f["sites"][-1] if f["sites"] else (fi, f["key"])
+        built = "; ".join(f"`{u(b)}` ({a.qual.split(':')[-1]}, line {getattr(b, 'lineno', '?')})" for a, b in f["sites"]) \
+            or f"`{u(f['key'])}`"
+        for field in sorted(routing):
+            uses = routing[field]
+            how = ("chooses the subscription table" if any(isinstance(x, ast.expr) and not isinstance(
+                x, (ast.Subscript, ast.Call, ast.Compare)) for _g, x in uses) else "is a key under which the sender is stored")
+            run.check(field in named, "C11.CHAN", site_fi.qual, site,
+                      f"the report channel of a subscription is looked up under a name that does not contain the "
+                      f"subscription's `{field}`: the name is built by {built} from {{{', '.join(sorted(named)) or 'no field'}}}, "
+                      f"but {uses[0][0].name} files the sender by `{field}` as well (it {how}, line {getattr(uses[0][1], 'lineno', '?')}).  "
+                      f"Two subscriptions that differ only in `{field}` are stored apart and served separately by "
+                      "the reporting method, yet share ONE channel: each subscriber receives both entries' reports, and "
+                      "the one it saw last is whichever was sent last"
+                      + (" - a regular and an operating-point actor with the same priority on the same components are "
+                         "both last told the regular group's target (request 130 W = 100 + 30, both told 100 W), so the "
+                         "request is not reported regular + reported operating-point target" if field == FLAG_ATTR else
+                         " - an actor is told the target / bounds of another priority or another component group")
+                      + ".  Every field that routes the sender (table selector, table key, inner key) must appear whole "
+                        "in the channel name (any order, any conversion; extra fields are harmless)",
+                      node=site, file=site_fi.file,
+                      instance=f"{fi.qual} line {call.lineno}: channel name contains `{field}`")
 
 
 def _enclosing_call(fn: ast.AST, n: ast.AST) -> ast.AST:
@@ -1153,6 +1197,8 @@ CONTROLS = [
     ("reports sent for the group of another arm", "microgrid._power_managing._power_managing_actor",
      "                await self._send_reports(proposal.component_ids)\n",
      "                await self._send_reports(component_ids)\n", "C11.ARM"),
+    ("report channel name without the operating-point flag", "microgrid._power_managing._base_classes",
+     '            f".{self.set_operating_point=}"\n', '            f""\n', "C11.CHAN"),
 ]
 
 
@@ -1179,6 +1225,9 @@ def check(run: Run, prog: Program, tier: str) -> str:
              "locals bound on the current pass of the loop (the arm's own message) - never a local whose reaching "
              "definition lies in another arm (the group of an earlier message, or unbound); followed through copies and "
              "through private helpers that hand the group on")
+    run.rule("C11.CHAN", "the key under which a subscriber's report sender is obtained from the channel registry contains, "
+             "whole, every field of the subscription that decides where the event loop stores the sender (the field that "
+             "selects the table, the fields used as keys): subscriptions filed apart never share a channel")
     run.rule("C11.REQ", "requests are built only from that result (no adjustment after the sum); new bounds are "
              "stored before recomputing; regular reports use the op-shifted bounds; every report carries the group's "
              "stored target in every state; a subscription names the same group (component ids, operating-point "
@@ -1188,6 +1237,7 @@ def check(run: Run, prog: Program, tier: str) -> str:
     run.floor("C11.SHIFT", 20)
     run.floor("C11.REQ", 6)
     run.floor("C11.ARM", 2)
+    run.floor("C11.CHAN", 2)
     from ..engine.controls import run_controls
 
     # the controls are located by structure in the analysed tree (textual patches as fallback)
